@@ -69,7 +69,7 @@ func generate(ld *Loaded, cs *Contracts, fc *FuncContract) (res *FuncResult) {
 			}
 		}
 	}()
-	if fc.Opts["rg"] != "" {
+	if fc.Opts["rg-counter"] != "" {
 		ex.rg = newRG(ex, fc)
 	}
 	st := &State{reach: tTrue, locals: map[*ssa.Alloc]Val{}, heaps: map[string]Term{}, vars: map[string]Term{}}
@@ -88,8 +88,14 @@ func generate(ld *Loaded, cs *Contracts, fc *FuncContract) (res *FuncResult) {
 		}
 	}
 	_ = ap0
-	ex.entry = st.clone()
 	top := ex.newFrame(fn, true)
+	if ex.rg != nil {
+		for i, p := range fn.Params {
+			top.regs[p] = args[i]
+		}
+		ex.rg.init(top, st)
+	}
+	ex.entry = st.clone()
 	// preconditions
 	for _, cl := range fc.Requires {
 		env := ex.specEnv(top, st, ex.entry)
@@ -142,6 +148,9 @@ func generate(ld *Loaded, cs *Contracts, fc *FuncContract) (res *FuncResult) {
 		var rnames []string
 		for i := 0; i < results.Len(); i++ {
 			rnames = append(rnames, results.At(i).Name())
+		}
+		if ex.rg != nil {
+			ex.rg.exit(nrm.st, fn.Pos())
 		}
 		// reachability canary for the normal exit
 		co := cx.oblige("vacuity", "exit-reachable", nrm.st.reach, tTrue, ex.pos(fn.Pos()), nil)
